@@ -61,6 +61,11 @@ StepField(e) ==
                     /\ Check(e.kind = "fixed" /\ o.ok, "zone_kind_as_in_file")
                     /\ Check(Len(e.ivs) = 1 /\ e.ivs[1].wall * 1000 = o.v /\ e.ivs[1].sav = 0
                              /\ e.ivs[1].start = MinTag /\ e.ivs[1].end = MaxTag, "fixed_zone_offset_as_in_file")
+                    \* the name is stored after the offset when present; otherwise the zone is named after its id
+                    /\ LET nm == IF o.ok /\ o.p < f.next
+                                 THEN LET r == DecStringPooled(B, o.p, Len(pool)) IN IF r.ok THEN PoolStr(r.v) ELSE <<>>
+                                 ELSE e.id
+                       IN  Check(Len(e.ivs) = 1 /\ e.ivs[1].name = nm, "fixed_zone_name_as_in_file")
                ELSE LET z == DecZone(B, idr.p + 1, Len(pool)) IN
                     /\ Check(typ = 2 /\ e.kind = "precalc" /\ z.ok /\ z.p = f.next, "zone_data_parses_exactly")
                     /\ IF z.ok
